@@ -278,6 +278,32 @@ class Engine:
 
     def assume_cmp(self, st, op, a, b):
         """refine st with (a op b); returns False if infeasible"""
+        if op != 'ne':
+            return self._assume_cmp(st, op, a, b) and self._apply_neds(st)
+        return self._assume_cmp(st, op, a, b)
+
+    def _apply_neds(self, st):
+        """disequalities between two symbols recorded earlier on the path: once the bounds learned since
+        then force the two sides to be equal the path is infeasible; once they order them, the order is strict"""
+        neds = st.vn.get(('neds',))
+        if not neds:
+            return True
+        for (sa, ka, sb, kb) in neds:
+            a, b = NumV(sa, ka, 'u32'), NumV(sb, kb, 'u32')
+            x = self.prove_le(st, a, b)
+            y = self.prove_le(st, b, a)
+            if x is True and y is True:
+                st.zone.bottom = True
+                return False
+            if x is True:
+                if not self.assume_le(st, NumV(sa, ka + 1, 'u32'), b):
+                    return False
+            elif y is True:
+                if not self.assume_le(st, NumV(sb, kb + 1, 'u32'), a):
+                    return False
+        return True
+
+    def _assume_cmp(self, st, op, a, b):
         if op == 'le':
             return self.assume_le(st, a, b)
         if op == 'lt':
@@ -289,6 +315,8 @@ class Engine:
         if op == 'eq':
             return self.assume_le(st, a, b) and self.assume_le(st, b, a)
         if op == 'ne':
+            if a.sym is not None and b.sym is not None and a.sym != b.sym:
+                st.vn[('neds',)] = st.vn.get(('neds',), frozenset()) | {(a.sym, a.k, b.sym, b.k)}
             r = self.prove_cmp(st, 'eq', a, b)
             if r is True:
                 st.zone.bottom = True
@@ -301,9 +329,9 @@ class Engine:
             # tighten at a bound
             ok = True
             if self.prove_le(st, a, b) is True:        # a <= b and a != b -> a < b
-                ok = self.assume_cmp(st, 'lt', a, b)
+                ok = self._assume_cmp(st, 'lt', a, b)
             elif self.prove_le(st, b, a) is True:
-                ok = self.assume_cmp(st, 'lt', b, a)
+                ok = self._assume_cmp(st, 'lt', b, a)
             if ok:
                 for x in (a, b):
                     if x.sym is not None:
@@ -851,6 +879,17 @@ class Engine:
                     flds[n] = self.const_value(st, t, x)
                 inner = strip_ref(ty)
                 v = EnumV(inner or ty or j['adt'], {j['variant']}, {j['variant']: StructV(j.get('variant_name', 'v'), flds)})
+                if inner is not None:
+                    root = ('H', 'c%d' % next(_uid))
+                    st.store[root] = v
+                    return RefV((root, ()))
+                return v
+            if 'struct' in j:
+                inner = strip_ref(ty)
+                flds = {n: self.const_value(st, t, x) for n, t, x in zip(j.get('names', []), j.get('tys', []), j.get('fields', []))}
+                if any(isinstance(x, OpaqueV) for x in flds.values()):
+                    return OpaqueV(ty, next(_uid))      # (a String, a Vec, ..: not a plain value)
+                v = StructV(inner or ty, flds, prov=('const',))
                 if inner is not None:
                     root = ('H', 'c%d' % next(_uid))
                     st.store[root] = v
